@@ -339,7 +339,9 @@ var funcs = []fnEntry{
 			w := g.bm(a)
 			nb := 64 * len(w)
 			e := max(mod(a.n(1), nb+1), 1)
-			i := min(mod(a.n(0), nb+1), e)
+			// i inside the bitmap, as for NextOne (C13 fixes both functions for such i only: with i == end ==
+			// 64*len(bm) an implementation may index the word of i)
+			i := min(mod(a.n(0), nb+1), e, nb-1)
 			return func() []any { return pack(bitmap.PrevOne(w, int32(i), int32(e))) }
 		}},
 	{"bitmap.Slice", func(t *rapid.T) Args {
@@ -859,29 +861,92 @@ var funcs = []fnEntry{
 			keys := g.keys(bs)
 			return func() []any { return pack(sigbits.FirstDiffBits(keys)) }
 		}},
-	{"sigbits.New(list with repeated keys)", func(t *rapid.T) Args {
-		if forceSize >= 0 || gen.Chance(t, 3, 10, "big") {
-			return keyArgs(t, 1) // every 5th key twice (setup)
+	// One SigBits object asked several (keyStart, keyEnd, maxitem) tuples (this slot held a kind that built
+	// SigBits objects from lists with repeated keys until the second review: no statement defines New on such
+	// lists, see retiredKinds). The statement's "result depends only on its arguments" for a method: the answer
+	// to a tuple may not depend on which tuples the object was asked before. The tuples of a case are related
+	// (the same range with another maxitem, the same start with another end, the same end with another start,
+	// the very same tuple again) and are asked four times in different orders, twice each of two objects built
+	// from the same keys; every answer is compared with the first answer to the same tuple (the closure reports a disagreement itself: see runCallRaw), and the
+	// first answers are read again after all later queries.
+	{multiQueryKind, func(t *rapid.T) Args {
+		a := keyArgs(t, 2)
+		nq := 2 + gen.Uniform(t, 5, "nq")
+		for j := 0; j < nq; j++ {
+			s, e, m := r64(t, "s"), r64(t, "e"), int64(gen.Uniform(t, 72, "m"))
+			switch gen.Uniform(t, 4, "span") {
+			case 0: // all keys
+				s, e = 0, -1
+			case 1: // a short run of keys
+				e = int64(gen.Uniform(t, 4, "run"))
+			}
+			if j > 0 {
+				p := 3 * gen.Uniform(t, j, "prev") // an earlier tuple of this case
+				switch gen.Uniform(t, 6, "rel") {
+				case 0, 1: // the same range, another maxitem
+					s, e = a.N[p], a.N[p+1]
+					if m == a.N[p+2] {
+						m = (m + 1 + int64(gen.Uniform(t, 70, "dm"))) % 72
+					}
+				case 2: // the same start, another end
+					s = a.N[p]
+				case 3: // another start, both up to the last key
+					e, a.N[p+1] = -1, -1
+				case 4: // the very same tuple again
+					s, e, m = a.N[p], a.N[p+1], a.N[p+2]
+				}
+			}
+			a.N = append(a.N, s, e, m)
 		}
-		ks := genKeysSorted(t, 1)
-		for n := 1 + gen.Uniform(t, 3, "ndup"); n > 0; n-- {
-			ks = append(ks, ks[gen.Uniform(t, len(ks), "which")])
-		}
-		sort.Slice(ks, func(i, j int) bool { return string(ks[i]) < string(ks[j]) })
-		return Args{S: ks}
+		return a
 	},
 		func(a Args, g *guard) func() []any {
-			bs := a.keys()
-			if a.K != nil {
-				bs = reshape(bs, 2)
+			keys := g.keys(sortedUnique(a.keysHex(), 2))
+			// two objects over the same keys: the second one is asked in another order from its very first query
+			// on (state that an object builds on its first query and never replaces shows between the two)
+			sbs := [2]*sigbits.SigBits{sigbits.New(keys), sigbits.New(keys)}
+			qs := multiQueries(a, len(keys))
+			nq := len(qs)
+			// the order of the queries: pass 0 (object 0) in the order of the case, pass 1 (object 1) backwards,
+			// pass 2 (object 0) in a keyed permutation, pass 3 (object 1) in the order of the case; all rotated by
+			// the placement of the guard - the objects of the relocated evaluation (and of the second goroutine of
+			// a cold-start probe) are first asked other tuples than the first ones
+			rot := [5]int{0, 0, 1, 2, 1}[g.pre%5]
+			step := 1 + int(vk.Mix(uint64(a.n(0))^uint64(nq)*0x9e37)%uint64(nq))
+			for gcd(step, nq) != 1 {
+				step++
 			}
-			if len(bs) == 0 {
-				bs = [][]byte{[]byte("k"), []byte("k")}
+			return func() []any {
+				raw := make([]any, 2*nq)
+				first := make([]string, nq)
+				for p := 0; p < 4; p++ {
+					sb := sbs[p&1]
+					for i := 0; i < nq; i++ {
+						k := i
+						switch p {
+						case 1:
+							k = nq - 1 - i
+						case 2:
+							k = (step*i + 1) % nq
+						}
+						k = (k + rot) % nq
+						q := qs[k]
+						mn, cnt := sb.CountPrefixes(q[0], q[1], q[2])
+						r := render(pack(mn, cnt))
+						if p == 0 {
+							raw[2*k], raw[2*k+1], first[k] = mn, cnt, r
+						} else if r != first[k] {
+							return pack(vk.Failf("result-depends-on-earlier-queries", "two SigBits objects over the same %d keys, each asked the tuples %v (keyStart, keyEnd, maxitem) twice, in four different orders: CountPrefixes(%d, %d, %d) returned %s the first time and %s in pass %d (object %d), after other queries", len(keys), qs, q[0], q[1], q[2], clip(first[k]), clip(r), p, p&1))
+						}
+					}
+				}
+				for k, q := range qs {
+					if again := render(raw[2*k : 2*k+2]); again != first[k] {
+						return pack(vk.Failf("result-changed-after-return", "two SigBits objects over the same %d keys, each asked the tuples %v: the result of CountPrefixes(%d, %d, %d) was %s when it was returned and reads %s after the later queries", len(keys), qs, q[0], q[1], q[2], clip(first[k]), clip(again)))
+					}
+				}
+				return raw
 			}
-			keys := g.keys(bs)
-			// New only indexes the list (FirstDiffBits accepts every non-empty list); nothing is queried: the
-			// observation is what happens to the caller's keys
-			return func() []any { return pack(sigbits.New(keys) != nil) }
 		}},
 	{"sigbits.New+CountPrefixes", func(t *rapid.T) Args {
 		a := keyArgs(t, 2)
@@ -922,6 +987,58 @@ var funcs = []fnEntry{
 		}},
 }
 
+const multiQueryKind = "sigbits.New+CountPrefixes(several queries of one object)"
+
+// retiredKinds are call kinds that older replay files may still name. A call of such a kind does nothing.
+//   - sigbits.New(list with repeated keys): no statement defines sigbits.New on a list that is not strictly
+//     ascending (C16 fixes FirstDiffBits for every non-empty list, New / CountPrefixes / ShardByPrefix for
+//     strictly ascending keys only); a New that rejects such a list is correct. Lists with repeated keys
+//     still go to sigbits.FirstDiffBits.
+var retiredKinds = map[string]bool{"sigbits.New(list with repeated keys)": true}
+
+// multiQueries maps the raw tuples of a multiQueryKind case onto valid (keyStart, keyEnd, maxitem) tuples over
+// n >= 2 keys: at least two keys per range, maxitem >= 1. Equal raw values give equal mapped values.
+func multiQueries(a Args, n int) [][3]int32 {
+	var qs [][3]int32
+	for j := 0; 3*j+2 < len(a.N); j++ {
+		s := mod(a.N[3*j], n-1)
+		e := s + 2 + pos(a.N[3*j+1], n-s-1)
+		qs = append(qs, [3]int32{int32(s), int32(e), int32(1 + mod(a.N[3*j+2], 80))})
+	}
+	if len(qs) == 0 {
+		qs = [][3]int32{{0, int32(n), 1}}
+	}
+	return qs
+}
+
+// multiQueryClasses labels how the tuples of a multiQueryKind case are related (by their raw values).
+func multiQueryClasses(a Args) []string {
+	nq := len(a.N) / 3
+	out := []string{fmt.Sprintf("sigbits-queries:%d", nq)}
+	seen := map[string]bool{}
+	for j := 0; j < nq; j++ {
+		for i := 0; i < j; i++ {
+			ss, se, sm := a.N[3*i] == a.N[3*j], a.N[3*i+1] == a.N[3*j+1], a.N[3*i+2]%80 == a.N[3*j+2]%80
+			switch {
+			case ss && se && sm:
+				seen["sigbits-queries:same-tuple-again"] = true
+			case ss && se:
+				seen["sigbits-queries:same-range-other-maxitem"] = true
+			case ss:
+				seen["sigbits-queries:same-start-other-end"] = true
+			case se && a.N[3*j+1] == -1:
+				seen["sigbits-queries:other-start-same-end"] = true
+			}
+		}
+	}
+	for _, l := range []string{"sigbits-queries:same-tuple-again", "sigbits-queries:same-range-other-maxitem", "sigbits-queries:same-start-other-end", "sigbits-queries:other-start-same-end"} {
+		if seen[l] {
+			out = append(out, l)
+		}
+	}
+	return out
+}
+
 // onesOf lists the positions of the ones below limit (ascending); it does not use the library.
 func onesOf(w []uint64, limit int) []int32 {
 	var out []int32
@@ -936,7 +1053,7 @@ func onesOf(w []uint64, limit int) []int32 {
 }
 
 // reshape turns a described (ascending, distinct) key list into the other lists that
-// FirstDiffBits / New accept: bit 0 descending order, bit 1 every 5th key twice (adjacent).
+// FirstDiffBits accepts (every non-empty list): bit 0 descending order, bit 1 every 5th key twice (adjacent).
 func reshape(bs [][]byte, flags int64) [][]byte {
 	if flags&2 != 0 {
 		var out [][]byte
